@@ -131,6 +131,18 @@ def loop_header_programs():
         yield f"nested/{b}/{c}", Program("app", ("seq", [("while", ("txn", "Fee"), ("seq", [inner, ("break",)])), ("approve",)]), [])
 
 
+def slot_limit_programs():
+    """programs at the edge of the 256-slot limit: n automatic variables next to requested ids (low, high, adjacent).
+    (name, program, fits): a program that fits must be accepted, one that does not must be refused with PyTeal's own error."""
+    out = []
+    for req, nauto in [((), 255), ((), 256), ((), 257), ((0,), 254), ((0,), 255), ((0,), 256), ((255,), 255), ((0, 1), 253), ((0, 1), 254),
+                       ((0, 1), 255), ((5, 6, 7), 253), ((3, 200), 254), ((0, 255), 254), ((100,), 255), ((1,), 255)]:
+        vs = [Var(U, k) for k in req] + [Var(U) for _ in range(nauto)]
+        body = [("store", v, ("int", i % 7)) for i, v in enumerate(vs)] + [("ret", ("op", "EqU", [("load", vs[0]), ("int", 0)]))]
+        out.append((f"slots/req={list(req)}/auto={nauto}", Program("app", ("seq", body), vs), len(req) + nauto <= 256))
+    return out
+
+
 def option_sets(version, has_sub):
     outs = [{}]
     outs.append({"scratch_slots": True})
@@ -209,6 +221,12 @@ def run(tier: str) -> int:
         if len(samples) < 3 and nsk % 97 == 1:
             samples.append({"skeleton": repr(sk), "placement": placement})
     stats["skeletons"] = nsk
+    for name, prog, fits in slot_limit_programs():
+        for v, o in ([(6, {"scratch_slots": False}), (10, {})] if tier == "quick" else [(2, {}), (6, {"scratch_slots": False}), (8, {}), (10, {})]):
+            res, cls = judge(prog, v, o, fits, "slot-limit", {"case": name})
+            if cls == "ok" and not fits:
+                rep.violation(f"slot-limit: a program needing more than 256 slots was accepted ({name}, v{v})",
+                              {"case": name, "version": v, "options": o, "program_pickle": pack(prog)})
     for name, prog in loop_header_programs():
         for v in ([2, 6, 9] if tier == "quick" else versions):
             judge(prog, v, {}, False, "loop-header", {"case": name})
